@@ -197,6 +197,36 @@ Definition do_put (cfg : config) (s : state) (k : okey) (cls : option bytes) (co
   let '(s1, p, pre) := write_fresh s (store_for cfg cls) cont in
   (install s1 k (mkO cls [p] meta tags false) [pre], None).
 
+(* CreateMultipartUpload(class) + UploadPart per content + CompleteMultipartUpload, as one step.  Every part is
+   routed to the store of the upload's class, deduplicated and registered at upload time; completion turns the
+   pending row into the object: Enabled -> a new version; otherwise the row with version id "null" is DELETED
+   (its part rows removed) and the completed row (created now) takes its place *)
+Fixpoint write_many (s : state) (store : N) (cs : list N) : state * list part * list bool :=
+  match cs with
+  | [] => (s, [], [])
+  | c :: cs' =>
+      let '(s1, p, pre) := write_fresh s store c in
+      let '(s2, ps, fl) := write_many (register s1 [(p, pre)]) store cs' in
+      (s2, p :: ps, pre :: fl)
+  end.
+Definition install_mp (s : state) (k : okey) (o : obj) : state :=
+  let vs0 := versions_of k (s_objs s) in
+  let n := s_next s in
+  match status_of s k with
+  | Enabled => bump (with_objs s (set_versions k (mkV n false false true n o :: demote vs0) (s_objs s)))
+  | _ =>
+      match find_idx v_null vs0 with
+      | Some i =>
+          let old := match nth_error vs0 i with Some r => r | None => mkV 0 true false false 0 empty_obj end in
+          remove_rows (bump (with_objs s (set_versions k (mkV n true false true n o :: demote (remove_nth i vs0)) (s_objs s))))
+                      (o_parts (v_obj old))
+      | None => bump (with_objs s (set_versions k (mkV n true false true n o :: demote vs0) (s_objs s)))
+      end
+  end.
+Definition do_multipart (cfg : config) (s : state) (k : okey) (cls : option bytes) (cs : list N) : state * option err :=
+  let '(s1, ps, _) := write_many s (store_for cfg cls) cs in
+  (install_mp s1 k (mkO cls ps 0 0 true), None).
+
 (* the current object as AppendObject sees it: a delete marker counts as absent *)
 Definition current_object (s : state) (k : okey) : option (nat * ver) :=
   match resolve (versions_of k (s_objs s)) VLatest with
@@ -385,6 +415,8 @@ Inductive op :=
 | OTransition (k : okey) (v : vsel) (cls : bytes) (im : ifmatch)
 | ODelete (k : okey) (v : vsel)
 | OVersioning (b : N) (st : status)
+| OMultipart (k : okey) (cls : option bytes) (cs : list N)
+| ORange (k : okey) (v : vsel) (rs : list (N * N))
 | ORead (k : okey) (v : vsel)
 | OCounts
 | OSweep
@@ -398,7 +430,8 @@ Definition step (cfg : config) (s : state) (o : op) : state * option err :=
   | OTransition k v c im => do_transition cfg s k v c im
   | ODelete k v => do_delete s k v
   | OVersioning b st => (set_status s b st, None)
-  | ORead _ _ | OCounts | OSweep => (s, None)
+  | OMultipart k cls cs => do_multipart cfg s k cls cs
+  | ORead _ _ | ORange _ _ _ | OCounts | OSweep => (s, None)
   | OBad => (s, Some BadOp)
   end.
 
@@ -418,18 +451,68 @@ Fixpoint run (cfg : config) (s : state) (ops : list op) : state :=
 Fixpoint run_phases (s : state) (phases : list (config * list op)) : state :=
   match phases with [] => s | (cfg, ops) :: r => run_phases (run cfg s ops) r end.
 
+(* ---- store kinds and the read path's transaction mode ----
+   A named store either needs an ambient database transaction for GetPart (the SQL part store, and anything
+   wrapped around it) or can be read without one (filesystem, and wrappers around it).  GetObject decides ONCE
+   per storage: it streams without a transaction iff EVERY configured store is transaction-free capable
+   (NamedPartStores.Capabilities = intersection); otherwise the readers keep the read transaction.  A GetPart
+   without a transaction on a store that needs one fails. *)
+Definition kinds := list bool.                 (* needs_tx of store 0, 1, 2 *)
+Definition needs_tx (kd : kinds) (st : N) : bool := nth (N.to_nat st) kd false.
+Definition tx_free_streaming (kd : kinds) : bool := forallb negb kd.
+Definition part_mode_ok (kd : kinds) (txfree : bool) (p : part) : bool := negb txfree || negb (needs_tx kd (p_store p)).
+Definition read_parts_k (kd : kinds) (s : state) (ps : list part) : option (list N) :=
+  if forallb (part_mode_ok kd (tx_free_streaming kd)) ps then read_parts s ps else None.
+Definition read_k (kd : kinds) (s : state) (k : okey) (v : vsel) : option (list N) :=
+  match find_row s k v with None => None | Some r => read_parts_k kd s (o_parts (v_obj r)) end.
+
+(* byte layout: content c is clen c bytes long; a range [start, end) of the concatenation is a list of
+   (content id, offset in it, length) segments *)
+Definition clen (c : N) : N := 23 + (c mod 7) * 5.
+Fixpoint segments (cs : list N) (start len : N) : list (N * N * N) :=
+  match cs with
+  | [] => []
+  | c :: cs' =>
+      if (len =? 0)%N then []
+      else if (clen c <=? start)%N then segments cs' (start - clen c) len
+      else let take := N.min (clen c - start) len in (c, start, take) :: segments cs' 0 (len - take)
+  end.
+Definition total_len (cs : list N) : N := fold_right (fun c a => clen c + a)%N 0%N cs.
+(* normalizeAndValidateRanges for explicit [start, end) ranges: the end is clamped to the size; an empty range is invalid *)
+Definition norm_range (size : N) (r : N * N) : option (N * N) :=
+  let e := N.min (snd r) size in if (fst r <? e)%N then Some (fst r, e) else None.
+
 (* ------------------------------------------------------------------------------------------ *)
 (* printing                                                                                    *)
 Definition show_list (l : list N) : bytes := match l with [] => B"-" | _ => join B"." (map show_N l) end.
 Definition show_etag (o : obj) : bytes := if o_mp o then "m"%byte :: show_nat (length (o_parts o)) else B"s".
-Definition show_read (s : state) (k : okey) (v : vsel) : bytes :=
+Definition show_seg (x : N * N * N) : bytes := show_N (fst (fst x)) ++ B"@" ++ show_N (snd (fst x)) ++ B"+" ++ show_N (snd x).
+Definition show_range (kd : kinds) (s : state) (k : okey) (v : vsel) (rs : list (N * N)) : bytes :=
+  if negb (known_version s k v) then B"NoSuchVersion" else
+  match find_row s k v with
+  | None => B"NoSuchKey"
+  | Some r =>
+      if v_dm r then B"DeleteMarker" else
+      match read_parts_k kd s (o_parts (v_obj r)) with
+      | None => B"Unreadable"
+      | Some cs =>
+          match mapM (norm_range (total_len cs)) rs with
+          | None => B"InvalidRange"
+          | Some nrs => match nrs with
+                        | [] => B"-"
+                        | _ => join B"," (map (fun r => join B"." (map show_seg (segments cs (fst r) (snd r - fst r)))) nrs)
+                        end
+          end
+      end
+  end.
+Definition show_read (kd : kinds) (s : state) (k : okey) (v : vsel) : bytes :=
   if negb (known_version s k v) then B"NoSuchVersion" else
   match find_row s k v with
   | None => B"NoSuchKey"
   | Some r =>
       if v_dm r then B"DeleteMarker" else
       let o := v_obj r in
-      match read_parts s (o_parts o) with
+      match read_parts_k kd s (o_parts o) with
       | None => B"Unreadable"
       | Some cs => join B"|" [tok_bytes (effective_class (o_class o)); show_list cs; show_N (o_meta o); show_N (o_tags o);
                               show_list (map p_store (o_parts o)); show_etag o]
@@ -447,31 +530,32 @@ Definition all_rows (s : state) : list (N * okey) :=
   flat_map (fun e => map (fun r => (v_ord r, fst e)) (snd e)) (s_objs s).
 Fixpoint find_owner (n : N) (l : list (N * okey)) : option okey :=
   match l with [] => None | (m, k) :: l' => if (n =? m)%N then Some k else find_owner n l' end.
-Fixpoint sweep_versions (s : state) (fuel : nat) (n : N) : list bytes :=
+Fixpoint sweep_versions (kd : kinds) (s : state) (fuel : nat) (n : N) : list bytes :=
   match fuel with
   | O => []
   | S fuel' =>
       match find_owner n (all_rows s) with
-      | Some k => show_read s k (VOrd n) :: sweep_versions s fuel' (n + 1)
-      | None => sweep_versions s fuel' (n + 1)
+      | Some k => show_read kd s k (VOrd n) :: sweep_versions kd s fuel' (n + 1)
+      | None => sweep_versions kd s fuel' (n + 1)
       end
   end.
-Definition sweep (s : state) : bytes :=
-  join B"/" (map (fun bk => show_read s bk VLatest) [(0, 0); (0, 1); (0, 2); (1, 0); (1, 1); (1, 2)]%N
-             ++ sweep_versions s (N.to_nat (s_next s)) 0 ++ [show_counts s]).
+Definition sweep (kd : kinds) (s : state) : bytes :=
+  join B"/" (map (fun bk => show_read kd s bk VLatest) [(0, 0); (0, 1); (0, 2); (1, 0); (1, 1); (1, 2)]%N
+             ++ sweep_versions kd s (N.to_nat (s_next s)) 0 ++ [show_counts s]).
 Definition show_err (e : err) : bytes :=
   match e with
   | NoSuchKey => B"NoSuchKey" | NoSuchVersion => B"NoSuchVersion"
   | InvalidStorageClass => B"InvalidStorageClass" | PreconditionFailed => B"PreconditionFailed"
   | DeleteMarker => B"DeleteMarker" | BadOp => B"BadOp"
   end.
-Definition show_result (s : state) (o : op) (r : option err) : bytes :=
+Definition show_result (kd : kinds) (s : state) (o : op) (r : option err) : bytes :=
   match r with
   | Some e => show_err e
   | None => match o with
-            | ORead k v => show_read s k v
+            | ORead k v => show_read kd s k v
+            | ORange k v rs => show_range kd s k v rs
             | OCounts => show_counts s
-            | OSweep => sweep s
+            | OSweep => sweep kd s
             | _ => B"ok"
             end
   end.
@@ -505,6 +589,21 @@ Definition parse_cfg_item (t : bytes) : option (bytes * N) :=
 Definition parse_cfg (t : bytes) : option config :=
   if bytes_eqb t B"_" then Some [] else mapM parse_cfg_item (split_on ","%byte t).
 
+Definition parse_range (t : bytes) : option (N * N) :=
+  match split_on "-"%byte t with
+  | [a; b] => match parse_N a, parse_N b with Some x, Some y => Some (x, y) | _, _ => None end
+  | _ => None
+  end.
+(* store kinds: one letter per store, f = filesystem, c = compression over filesystem (transaction-free);
+   q = SQL part store, d = compression over the SQL part store (need a transaction) *)
+Definition parse_kind (b : byte) : option bool :=
+  if beqb b "f"%byte || beqb b "c"%byte then Some false
+  else if beqb b "q"%byte || beqb b "d"%byte then Some true else None.
+Definition parse_kinds (t : bytes) : option kinds :=
+  match mapM parse_kind t with
+  | Some kd => if (length kd =? 3)%nat then Some kd else None
+  | None => None
+  end.
 Definition parse_op (t : bytes) : op :=
   match split_on ":"%byte t with
   | [kind; b; k; c; x; m; g] =>
@@ -525,6 +624,14 @@ Definition parse_op (t : bytes) : op :=
       else if bytes_eqb kind B"R" then
         match parse_okey b k, parse_ver x with Some ok, Some v => ORead ok v | _, _ => OBad end
       else OBad
+  | [kind; b; k; c; x] =>
+      if bytes_eqb kind B"MP" then
+        match parse_okey b k, parse_cls c, mapM parse_N (split_on "."%byte x) with
+        | Some ok, Some cls, Some cs => OMultipart ok cls cs | _, _, _ => OBad end
+      else if bytes_eqb kind B"G" then
+        match parse_okey b k, parse_ver c, mapM parse_range (split_on ","%byte x) with
+        | Some ok, Some v, Some rs => ORange ok v rs | _, _, _ => OBad end
+      else OBad
   | [kind; b; k; v; c; im] =>
       if bytes_eqb kind B"T" then
         match parse_okey b k, parse_ver v, untok_bytes c, parse_im im with
@@ -541,23 +648,36 @@ Definition parse_op (t : bytes) : op :=
   | _ => OBad
   end.
 
-Fixpoint run_tokens (cfg : config) (s : state) (toks : list bytes) : list bytes :=
+Fixpoint run_tokens (kd : kinds) (cfg : config) (s : state) (toks : list bytes) : list bytes :=
   match toks with
   | [] => []
   | t :: r =>
       if is_prefix B"M=" t then
         match parse_cfg (skipn 2 t) with
-        | Some cfg' => B"cfg" :: run_tokens cfg' s r
-        | None => B"BadCfg" :: run_tokens cfg s r
+        | Some cfg' => B"cfg" :: run_tokens kd cfg' s r
+        | None => B"BadCfg" :: run_tokens kd cfg s r
         end
       else
         let o := parse_op t in
         let '(s', res) := step cfg s o in
-        show_result s' o res :: run_tokens cfg s' r
+        show_result kd s' o res :: run_tokens kd cfg s' r
   end.
 
 Definition run_line (line : bytes) : bytes :=
   match tokens line with
-  | mode :: rest => if bytes_eqb mode B"h" then unwords (run_tokens [] init rest) else parse_error
+  | mode :: rest =>
+      if bytes_eqb mode B"h" then
+        (* the store kinds are fixed for a whole case: optional first token K=xyz (default: three filesystem stores) *)
+        match rest with
+        | t :: rest' =>
+            if is_prefix B"K=" t then
+              match parse_kinds (skipn 2 t) with
+              | Some kd => unwords (B"kinds" :: run_tokens kd [] init rest')
+              | None => unwords (B"BadKinds" :: run_tokens [false; false; false] [] init rest')
+              end
+            else unwords (run_tokens [false; false; false] [] init rest)
+        | [] => unwords (run_tokens [false; false; false] [] init rest)
+        end
+      else parse_error
   | [] => parse_error
   end.
